@@ -1609,6 +1609,10 @@ class XInterp(Interp):
             return self._issubclass
         if e.id == "type":
             return self._type
+        if e.id == "getattr":
+            return self._getattr
+        if e.id == "hasattr":
+            return self._hasattr
         return self.global_lookup(self.module, e.id)
 
     def global_lookup(self, m: Module, name: str) -> Any:
@@ -1739,6 +1743,66 @@ class XInterp(Interp):
             if attr in allowed or (isinstance(obj, str) and attr in _EXTRA_STR):
                 return getattr(obj, attr)
         raise Unsupported(f"attribute `{attr}` of {type(obj).__name__}")
+
+    # ------------------------------------------------------------------ getattr / hasattr with a computed name
+    def _getattr(self, obj: Any, name: Any, *default: Any) -> Any:
+        """Builtin ``getattr``: the same lookup as ``obj.<name>`` (fields, properties, methods, class attributes).
+        An attribute the model cannot find is *absent* (default / AttributeError) only when the object's class
+        hierarchy is completely known (`_attr_absent`); otherwise the lookup stays undecided (Unsupported)."""
+        if len(default) > 1:
+            raise Raised("TypeError", "getattr expected at most 3 arguments")
+        if not isinstance(name, str):
+            raise Raised("TypeError", "attribute name must be string")
+        try:
+            return self.getattr_(obj, name)
+        except Raised as r:
+            if r.name == "AttributeError" and default:  # a property that raises AttributeError
+                return default[0]
+            raise
+        except Unsupported:
+            if not self._attr_absent(obj, name):
+                raise
+        if default:
+            return default[0]
+        raise Raised("AttributeError", f"object has no attribute {name}")
+
+    def _hasattr(self, obj: Any, name: Any) -> bool:
+        marker = object()
+        return self._getattr(obj, name, marker) is not marker
+
+    _ATTR_FREE_BASES = {"object", "ABC", "Protocol", "Generic"}
+
+    def _attr_absent(self, obj: Any, attr: str) -> bool:
+        """True only if ``obj`` is an instance of a repository class whose every ancestor is a repository class (or an
+        attribute-free marker base), none of which customises attribute lookup or is replaced by a model hook: then the
+        instance dict and the class bodies the model has read are all there is."""
+        w = self.world
+        if not isinstance(obj, Record) or attr in obj.__dict__ or (attr.startswith("__") and attr.endswith("__")):
+            return False
+        c = w.classes.get(obj._cls)
+        if c is None:
+            return False
+        for cr in self._mro(c):
+            if cr.name in w.ctor_hooks or (cr.name, attr) in w.method_hooks or (cr.name, attr) in w.class_hooks:
+                return False
+            if any(k.arg == "metaclass" and (dotted(k.value) or "").rsplit(".", 1)[-1] != "ABCMeta" for k in cr.node.keywords):
+                return False
+            for b in cr.node.bases:
+                b = b.value if isinstance(b, ast.Subscript) else b
+                try:
+                    r = w.repo.resolve_dotted(cr.module, ast.unparse(b))
+                except Exception:
+                    return False
+                if not ((":" in r and w.repo._has_cls(r)) or r.rsplit(".", 1)[-1].rsplit(":", 1)[-1] in self._ATTR_FREE_BASES):
+                    return False
+            for n in cr.node.body:
+                if isinstance(n, FuncNode) and n.name in ("__getattr__", "__getattribute__"):
+                    return False
+                if isinstance(n, FuncNode) and n.name == attr:
+                    return False
+                if isinstance(n, (ast.Assign, ast.AnnAssign)) and attr in {t.id for t in ast.walk(n) if isinstance(t, ast.Name) and isinstance(t.ctx, ast.Store)}:
+                    return False
+        return True
 
     def _mro(self, c: ClassRef) -> list[ClassRef]:
         cached = getattr(c, "_mro_cache", None)
@@ -2524,9 +2588,62 @@ def sql_sites(m: Module) -> list[dict]:
     return sites
 
 
-def _table_driven(arg: ast.Name, call: ast.Call) -> list[tuple[ast.AST, str]] | None:
-    """`for column, values in [("a", x), ("b", y)]: helper(column, values)` — the constants a loop variable ranges over."""
-    from ..astx import expand
+def _module_constant(m: Module, name: str, at: ast.AST) -> ast.AST | None:
+    """Value expression of a module-level constant `NAME = <expr>` / `NAME: T = <expr>` read as a bare name at ``at``.
+    A *constant*: not shadowed by a parameter/local/`global` of any enclosing function, bound exactly once in the whole
+    module by an unconditional top-level statement, and never rebound, deleted or mutated in place anywhere in the module."""
+    from ..astx import MUTATORS
+    f = enclosing_function(at)
+    while f is not None:
+        a = f.args
+        if name in {p.arg for p in a.posonlyargs + a.args + a.kwonlyargs + [x for x in (a.vararg, a.kwarg) if x is not None]}:
+            return None
+        f = enclosing_function(f)
+    value, binder = None, None
+    for st in m.tree.body:
+        if isinstance(st, ast.Assign) and len(st.targets) == 1 and isinstance(st.targets[0], ast.Name) and st.targets[0].id == name:
+            if binder is not None:
+                return None
+            value, binder = st.value, st.targets[0]
+        elif isinstance(st, ast.AnnAssign) and isinstance(st.target, ast.Name) and st.target.id == name and st.value is not None:
+            if binder is not None:
+                return None
+            value, binder = st.value, st.target
+    if binder is None:
+        return None
+    for n in ast.walk(m.tree):
+        if isinstance(n, ast.Name) and n.id == name and isinstance(n.ctx, (ast.Store, ast.Del)) and n is not binder:
+            return None  # rebound somewhere (another assignment, a loop/with/except target, a local that shadows it, ...)
+        if isinstance(n, (ast.Global, ast.Nonlocal)) and name in n.names:
+            return None
+        if isinstance(n, FuncNode + (ast.ClassDef,)) and n.name == name:
+            return None
+        if isinstance(n, ast.alias) and (n.asname or n.name.split(".")[0]) == name:
+            return None
+        if isinstance(n, ast.ExceptHandler) and n.name == name:
+            return None
+        if isinstance(n, ast.arg) and n.arg == name:
+            return None  # a parameter of some function/lambda: keep the reading simple, one meaning per module
+        if isinstance(n, ast.Call) and isinstance(n.func, ast.Attribute) and n.func.attr in MUTATORS and isinstance(n.func.value, ast.Name) and n.func.value.id == name:
+            return None
+        if isinstance(n, ast.Subscript) and isinstance(n.ctx, (ast.Store, ast.Del)) and isinstance(n.value, ast.Name) and n.value.id == name:
+            return None
+    if not isinstance(value, ast.Tuple):
+        # a mutable table (list literal) could be changed through an alias: it may only ever be iterated over
+        for n in ast.walk(m.tree):
+            if isinstance(n, ast.Name) and n.id == name and isinstance(n.ctx, ast.Load):
+                p = parent(n)
+                if not (isinstance(p, (ast.For, ast.AsyncFor, ast.comprehension)) and p.iter is n):
+                    return None
+    return value
+
+
+def _table_driven(arg: ast.Name, call: ast.Call, m: Module | None = None) -> list[tuple[ast.AST, str]] | None:
+    """`for column, values in [("a", x), ("b", y)]: helper(column, values)` — the constants a loop variable ranges over.
+    The table is a literal in the loop header, a straight-line local bound to one, or a module-level constant
+    (`_module_constant`); every row must give a string constant at the loop variable's position, and the loop variable
+    must not be rebound inside the loop."""
+    from ..astx import assigned_names, expand
     from ..index import parent
     p = parent(call)
     while p is not None and not isinstance(p, (ast.FunctionDef, ast.AsyncFunctionDef)):
@@ -2535,7 +2652,11 @@ def _table_driven(arg: ast.Name, call: ast.Call) -> list[tuple[ast.AST, str]] | 
             elts = tg.elts if isinstance(tg, ast.Tuple) else [tg]
             idx = next((i for i, e in enumerate(elts) if isinstance(e, ast.Name) and e.id == arg.id), None)
             if idx is not None:
+                if any(arg.id in assigned_names(st) for st in p.body):
+                    return None
                 it = expand(p.iter, p, depth=1)
+                if isinstance(it, ast.Name) and m is not None:
+                    it = _module_constant(m, it.id, p)
                 if not isinstance(it, (ast.List, ast.Tuple)):
                     return None
                 out = []
@@ -2564,8 +2685,8 @@ def _column_args(m: Module, site: dict) -> list[tuple[ast.AST, str]]:
                     arg = c.args[idx] if len(c.args) > idx else next((k.value for k in c.keywords if k.arg == h.id), None)
                     if isinstance(arg, ast.Constant) and isinstance(arg.value, str):
                         out.append((arg, arg.value))
-                    elif isinstance(arg, ast.Name) and _table_driven(arg, c) is not None:
-                        out += _table_driven(arg, c)
+                    elif isinstance(arg, ast.Name) and _table_driven(arg, c, m) is not None:
+                        out += _table_driven(arg, c, m)
                     elif arg is not None:
                         raise AnchorError(f"C28.R3: column name passed to `{fn.name}` in {m.rel} is not a constant (`{ast.unparse(arg)[:40]}`)")
     return out
@@ -2742,7 +2863,48 @@ _PU = _D + "migration_utils.py"
 _PW = _D + "sqlite/sqlite_workflow_store.py"
 _S1, _S2, _S3, _S4 = (_D + "sqlite/migrations/" + n for n in ("0001_init.sql", "0002_extend_handlers.sql", "0003_add_idle_since.sql", "0004_add_ticks.sql"))
 
+# The four copy-pasted `IN` filter blocks of `_build_filters` up to the end of the class, and the same method driven by a
+# module-level table of (column, HandlerQuery attribute) pairs read with `getattr` (shared with the C16/C24 twins).
+IN_BLOCKS_OLD = (
+    "        if query.workflow_name_in is not None:\n            if len(query.workflow_name_in) == 0:\n                return None\n"
+    "            add_in_clause(\"workflow_name\", query.workflow_name_in)\n\n"
+    "        if query.handler_id_in is not None:\n            if len(query.handler_id_in) == 0:\n                return None\n"
+    "            add_in_clause(\"handler_id\", query.handler_id_in)\n\n"
+    "        if query.run_id_in is not None:\n            if len(query.run_id_in) == 0:\n                return None\n"
+    "            add_in_clause(\"run_id\", query.run_id_in)\n\n"
+    "        if query.status_in is not None:\n            if len(query.status_in) == 0:\n                return None\n"
+    "            add_in_clause(\"status\", query.status_in)\n\n"
+    "        if query.is_idle is not None:\n            if query.is_idle:\n                clauses.append(\"idle_since IS NOT NULL\")\n"
+    "            else:\n                clauses.append(\"idle_since IS NULL\")\n\n"
+    "        if not clauses:\n            return clauses, params\n\n        return clauses, params\n\n\n"
+    "def _row_to_persistent_handler("
+)
+IN_TABLE_ROWS = '("workflow_name", "workflow_name_in"), ("handler_id", "handler_id_in"), ("run_id", "run_id_in"), ("status", "status_in")'
+
+
+def in_blocks_table_driven(rows: str = IN_TABLE_ROWS, read: str = "getattr(query, attr_name)", table: str = "({rows},)", extra: str = "") -> str:
+    return (
+        "        for column, attr_name in _IN_FILTER_COLUMNS:\n"
+        f"            values = {read}\n"
+        "            if values is None:\n                continue\n"
+        "            if len(values) == 0:\n                return None\n"
+        "            add_in_clause(column, values)\n\n"
+        "        if query.is_idle is not None:\n"
+        "            clauses.append(\"idle_since IS NOT NULL\" if query.is_idle else \"idle_since IS NULL\")\n\n"
+        "        return clauses, params\n\n\n"
+        f"_IN_FILTER_COLUMNS: Any = {table.format(rows=rows)}\n{extra}\n\n"
+        "def _row_to_persistent_handler("
+    )
+
+
 TWINS = [
+    # ---- R3: table-driven filters over a module-level constant
+    Twin("benign: IN filters driven by a module-level table of (column, attribute) pairs", _PW, IN_BLOCKS_OLD, in_blocks_table_driven(), None),
+    Twin("benign: module-level table is a list literal", _PW, IN_BLOCKS_OLD, in_blocks_table_driven(table="[{rows}]"), None),
+    Twin("module-level filter table names a column no script creates", _PW, IN_BLOCKS_OLD,
+         in_blocks_table_driven(IN_TABLE_ROWS.replace('("status", "status_in")', '("state", "status_in")')), "C28.R3"),
+    Twin("module-level filter table uses the attribute name as the column", _PW, IN_BLOCKS_OLD,
+         in_blocks_table_driven(IN_TABLE_ROWS.replace('("run_id", "run_id_in")', '("run_id_in", "run_id_in")')), "C28.R3"),
     # ---- R1 breaking
     Twin("index on a column a later script adds", _S1, "    ctx TEXT\n);", "    ctx TEXT\n);\nCREATE INDEX IF NOT EXISTS idx_handlers_run_id ON handlers (run_id);", "C28.R1"),
     Twin("legacy seeding off by one", _PM, "for v in range(1, legacy_version + 1):", "for v in range(1, legacy_version):", "C28.R1"),
